@@ -63,7 +63,7 @@ class C04(Property):
     @property
     def consts(self):
         if self._consts is None:
-            self._consts = c04consts.extract()
+            self._consts = c04consts.extract_or_defaults()
         return self._consts
 
     def regen(self, ctx):
